@@ -532,6 +532,29 @@ class Engine:
         return out
 
     def do_for(self, st, stmt):
+        k0 = self.loops[id(stmt)]
+        if self.c.get('loops', {}).get(k0) == 'unroll':
+            # iteration over a constant tuple (e.g. SLICE_ATTRS): unrolled statically, no invariant needed
+            itv = self.ev(stmt.iter, st)
+            if not isinstance(itv, VTuple) or len(itv.items) > 8:
+                raise Unsupported(f'loop #{k0}: unroll requested but the iterable is not a small constant tuple')
+            frontier, out = [st], []
+            for item in itv.items:
+                nxt = []
+                for s_ in frontier:
+                    s_ = s_.clone()
+                    self.assign(s_, stmt.target, item, None)
+                    for s2, o in self.exec_block(s_, stmt.body):
+                        if o[0] in (NORMAL, CONTINUE):
+                            nxt.append(s2)
+                        elif o[0] == BREAK:
+                            out.append((s2, (NORMAL,)))
+                        else:
+                            out.append((s2, o))
+                frontier = nxt
+            for s_ in frontier:
+                out.extend(self.exec_block(s_, stmt.orelse) if stmt.orelse else [(s_, (NORMAL,))])
+            return out
         k, spec = self.loop_spec(stmt)
         it = self.ev(stmt.iter, st)
         seq = self.as_sequence(it, st)          # (length z3 Int, getter(idx)->V)
